@@ -287,6 +287,10 @@ pub fn exec_line(line: &str) -> String {
         "HIST" => run_history(fields[1], &fields[2..], |_, _| None).0.join(" ;; "),
         "REG" => exec_reg(&fields[1..]),
         "ANG" => exec_ang(&fields[1..]),
+        "KP" => {
+            let (rc, out) = run_kp(&fields[1..]);
+            format!("rc={} out={}", rc, escape(&out))
+        }
         "PROJ" => match parse_proj(&unescape(fields.get(1).unwrap_or(&""))) {
             Ok(r) => format!("ok {}", escape(&r)),
             Err(e) => format!("err {}", err_class(&e)),
@@ -332,4 +336,62 @@ fn exec_ang(fields: &[&str]) -> String {
         _ => return "bad-case".to_string(),
     };
     fbits(r)
+}
+
+/// run the `kp` binary built from the working tree on the case's options, operation and files
+pub fn run_kp(fields: &[&str]) -> (i32, String) {
+    let kp = std::env::var("VERIF_KP").unwrap_or_else(|_| "/verif/harness/target-kp/debug/kp".to_string());
+    let opts = fields[0];
+    let op = unescape(fields[1]);
+    let nfiles: usize = fields[2].parse().unwrap_or(0);
+    let dir = std::path::PathBuf::from(format!("/var/tmp/gv-kp-{}", std::process::id()));
+    let _ = std::fs::create_dir_all(&dir);
+    let mut args: Vec<String> = vec![];
+    for kv in opts.split(';') {
+        let Some((k, v)) = kv.split_once('=') else { continue };
+        if v == "-" {
+            continue;
+        }
+        match k {
+            "inv" => {
+                if v == "1" {
+                    args.push("--inv".into())
+                }
+            }
+            "rt" => {
+                if v == "1" {
+                    args.push("--roundtrip".into())
+                }
+            }
+            "z" => {
+                args.push(format!("-z={}", parse_f(v)));
+            }
+            "t" => {
+                args.push(format!("-t={}", parse_f(v)));
+            }
+            "d" => {
+                args.push(format!("-d={v}"));
+            }
+            "D" => {
+                args.push(format!("-D={v}"));
+            }
+            _ => {}
+        }
+    }
+    args.push(op);
+    for i in 0..nfiles {
+        let path = dir.join(format!("in{i}.txt"));
+        if fields[3 + i] == "UNREADABLE" {
+            args.push(dir.join(format!("missing{i}.txt")).to_string_lossy().to_string());
+        } else {
+            let _ = std::fs::write(&path, unescape(fields[3 + i]));
+            args.push(path.to_string_lossy().to_string());
+        }
+    }
+    let out = std::process::Command::new(kp).args(&args).env_remove("RUST_LOG").stdin(std::process::Stdio::null()).output();
+    let _ = std::fs::remove_dir_all(&dir);
+    match out {
+        Ok(o) => (if o.status.success() { 0 } else { 1 }, String::from_utf8_lossy(&o.stdout).to_string()),
+        Err(_) => (-1, String::new()),
+    }
 }
